@@ -1,0 +1,9 @@
+//go:build !verif
+
+// Package verifhook provides schedule-perturbation points for the external
+// verification harness. Without the build tag `verif` Point is an empty
+// function that the compiler inlines away.
+package verifhook
+
+// Point marks a schedule-sensitive site. No-op in normal builds.
+func Point(site string) {}
